@@ -2,14 +2,16 @@
 (* The token carried by the service requests of one HTTP call (C10: every request made on behalf of a connection   *)
 (* carries that connection's token).  The connection's token is what the last token event addressed to it set;     *)
 (* the events are delivered while the header-auth request (init) and the access request (evt) are outstanding.     *)
+(* Every request carries the id of the temporary connection and is marked as made for an HTTP request.             *)
 EXTENDS Json, TLC, Sequences, FiniteSets, Integers
 T == ndJsonDeserialize("table.ndjson")
 \* token of the connection when the i-th request is sent: requests are [auth,] access, call
 Expected(r) ==
     LET afterAuth == r.init
         afterAccess == IF r.evt = "none" THEN afterAuth ELSE r.evt
-    IN IF r.init = "nil" THEN <<[t |-> "access", tok |-> "nil"], [t |-> "call", tok |-> afterAccess]>>
-       ELSE <<[t |-> "auth", tok |-> "nil"], [t |-> "access", tok |-> afterAuth], [t |-> "call", tok |-> afterAccess]>>
+        R(t, tok) == [t |-> t, tok |-> tok, cid |-> TRUE, http |-> TRUE]   \* its own connection id, marked as an HTTP request
+    IN IF r.init = "nil" THEN <<R("access", "nil"), R("call", afterAccess)>>
+       ELSE <<R("auth", "nil"), R("access", afterAuth), R("call", afterAccess)>>
 RowOK(r) == r.reqs = Expected(r) /\ r.status = 200
 Bad == {i \in 1..Len(T) : ~RowOK(T[i])}
 Combos == {<<T[i].method, T[i].init, T[i].evt>> : i \in 1..Len(T)}
